@@ -41,12 +41,12 @@ func init() {
 // evRec is one removal made by the janitor code (eviction or cleanup), as seen by the
 // wrappers that traceRemovals puts around the janitor's removeEntry / cacheIterator.
 type evRec struct {
-	Thread int    // scheduler thread that removed
-	Key    string // harness name of the key
-	Before int64  // the cache's own size figure immediately before the removal
-	Since  int    // stamp of that thread's previous checkpoint (end of its scan, or its previous removal)
-	At     int    // stamp of the removal
-	Expired bool  // the entry had expired (the cleanup path removes those whatever the size)
+	Thread  int    // scheduler thread that removed
+	Key     string // harness name of the key
+	Before  int64  // the cache's own size figure immediately before the removal
+	Since   int    // stamp of that thread's previous checkpoint (end of its scan, or its previous removal)
+	At      int    // stamp of the removal
+	Expired bool   // the entry had expired (the cleanup path removes those whatever the size)
 }
 
 type schedRun struct {
@@ -235,8 +235,8 @@ func (r *schedRun) integrityProblems() []problem {
 		call, ret int
 		ok        bool
 	}
-	writes := map[string]wr{}      // "k/vN/nB" -> the store that produced it
-	var removers []opRec           // successful stores and deletes, per key
+	writes := map[string]wr{} // "k/vN/nB" -> the store that produced it
+	var removers []opRec      // successful stores and deletes, per key
 	keyOf := func(o opRec) string { return strings.Split(o.Op, ":")[1] }
 	for _, o := range all {
 		if o.Stored != "" {
